@@ -122,6 +122,10 @@ def main(argv=None):
     if '--quick' in argv:
         tier = 'quick'
     seed = int(os.environ.get('VERIF_SEED', '0'))
+    ids = [json.loads(l)['id'] for l in open(os.path.join(VERIF, 'properties.jsonl')) if l.strip()]
+    if prop not in ids:
+        print('CHECKER-FAILURE unknown property id %r (known: %s..%s)' % (prop, ids[0], ids[-1]))
+        return 3
     if '--replay' in argv:
         return replay_file(argv[argv.index('--replay') + 1])
     t0 = time.time()
